@@ -46,7 +46,7 @@ encode(decoded) == encode(built), to-be-signed encode_ref of the decoded twin ==
 encode_ref of the decoded twin == eContent, accessor snapshot (each accessor under no_panic) identical for both, no \
 builder panic. Non-trivial = object with >= 2 list entries (blocks / prefixes / files / revoked / providers) or >= 2 \
 resource families; for the list-less kinds: CSR with rpkiNotify or a repository URI without trailing slash, IdCert EE, \
-signed message with >= 128 content octets. Builder routes: ROA prefixes reach RoaBuilder through one of six public routes chosen by the AS number (push_v*_addr, push_v*, extend_v*_from_slice in two portions, push_addr interleaved, v*_mut, with_addresses + set_as_id); every CRL is built a second time from decoy constructor arguments put right through the TbsCertList setters / revoked_certs_mut and must be byte-identical; certificates include detached EE certificates (with and without signedObject SIA) validated through validate_detached_ee_at.";
+signed message with >= 128 content octets. Builder routes: ROA prefixes reach RoaBuilder through one of six public routes chosen by the AS number (push_v*_addr, push_v*, extend_v*_from_slice in two portions, push_addr interleaved, v*_mut, with_addresses + set_as_id); every CRL is built a second time from decoy constructor arguments put right through the TbsCertList setters / revoked_certs_mut and must be byte-identical; certificates include detached EE certificates (with and without signedObject SIA) validated through validate_detached_ee_at. big-lists: manifests of 65536 / 65537 / 70001 files through ManifestContent::new -> into_manifest -> decode with the same twin comparison.";
 
 //------------ generic helpers ---------------------------------------------------------
 
